@@ -4,6 +4,8 @@ import hashlib
 import itertools
 import json
 import os
+import re
+import shutil
 import subprocess
 
 from . import common
@@ -712,6 +714,88 @@ def _c13_budget(files):
     return 10 + size // 50_000
 
 
+FUZZ_MARK = "<!--ZVFILE-->"
+
+
+def _fuzz_stream(corpus, seconds):
+    """Third input stream of C13 (thorough): libFuzzer (cargo fuzz, coverage feedback, ASan build) as a *workload generator* over
+    the reader + writer. Nothing it reports is a verdict: every artifact it saves and every corpus entry it keeps is handed to the
+    zdrive monitor afterwards. Returns (inputs, info); inputs = [(label, files, start, ops)]."""
+    info = {"status": "not-run"}
+    fdir = os.path.join(common.TOOLS, "fuzz")
+    tdir = os.path.join(common.WORK, "fuzz-target")
+    shutil.copy(os.path.join(common.TOOLS, "Cargo.lock"), os.path.join(fdir, "Cargo.lock"))
+    try:
+        b = common.run(["cargo", "+nightly", "fuzz", "build", "--fuzz-dir", fdir, "--target-dir", tdir, "readwrite"],
+                       cwd=common.TOOLS, timeout=2400)
+    except subprocess.TimeoutExpired:
+        info["reason"] = "cargo fuzz build timed out"
+        return [], info
+    binary = os.path.join(tdir, "x86_64-unknown-linux-gnu", "release", "readwrite")
+    if b.returncode != 0 or not os.path.exists(binary):
+        info["reason"] = "cargo +nightly fuzz build failed: " + b.stderr.decode(errors="replace")[-400:]
+        return [], info
+    root = common.scratch("c13fuzz")
+    cdir, adir = os.path.join(root, "corpus"), os.path.join(root, "artifacts")
+    os.makedirs(cdir)
+    os.makedirs(adir)
+    seeds = 0
+    for label, files, start in corpus:
+        if sum(len(c) for c in files.values()) > 60_000 or len(files) > 6:
+            continue
+        names = [start] + sorted(n for n in files if n != start)
+        with open(os.path.join(cdir, f"seed-{seeds:04d}"), "w") as f:
+            f.write(FUZZ_MARK.join(files[n] for n in names))
+        seeds += 1
+    seed_names = set(os.listdir(cdir))
+    log = os.path.join(root, "fuzz.log")
+    cmd = [binary, cdir, "-fork=14", "-ignore_crashes=1", "-ignore_timeouts=1", "-ignore_ooms=1", "-timeout=10",
+           f"-max_total_time={seconds}", "-max_len=65536", "-rss_limit_mb=4096",
+           "-dict=" + os.path.join(fdir, "xsd.dict"), "-artifact_prefix=" + adir + "/"]
+    with open(log, "wb") as lf:
+        try:
+            subprocess.run(cmd, stdout=lf, stderr=subprocess.STDOUT, env=common.ENV, timeout=seconds + 600, cwd=root)
+        except subprocess.TimeoutExpired:
+            info["note"] = "fuzzer overran its time box and was stopped"
+    last = ""
+    for line in open(log, errors="replace"):
+        if line.startswith("#") and " cov: " in line:
+            last = line.strip()
+    m = re.match(r"#(\d+): cov: (\d+) ft: (\d+) corp: (\d+) .*oom/timeout/crash: (\d+)/(\d+)/(\d+)", last)
+    if not m:
+        info["reason"] = "no progress line in the fuzzer log"
+        shutil.rmtree(root, ignore_errors=True)
+        return [], info
+    info = {"status": "ran", "seconds": seconds, "seed_inputs": seeds, "executions": int(m.group(1)), "edges_covered": int(m.group(2)),
+            "features": int(m.group(3)), "corpus_entries": int(m.group(4)),
+            "fuzzer_reported": {"oom": int(m.group(5)), "timeout": int(m.group(6)), "crash": int(m.group(7))}}
+    inputs = []
+
+    def take(path, label, op):
+        try:
+            text = open(path, "rb").read().decode("utf-8")
+        except UnicodeDecodeError:
+            return
+        parts = text.split(FUZZ_MARK)[:7]
+        files = {"in.wsdl": parts[0]}
+        for i, part in enumerate(parts[1:]):
+            files[f"f{i + 1}.xsd"] = part
+        inputs.append((label, files, "in.wsdl", [op]))
+
+    for n in sorted(os.listdir(adir)):
+        take(os.path.join(adir, n), "fuzzed:artifact", "fuzz-artifact:" + n.split("-")[0])
+    info["artifacts_rejudged"] = len(inputs)
+    new = sorted(set(os.listdir(cdir)) - seed_names)
+    r = rng("C13", "fuzz-sample")
+    if len(new) > 40_000:
+        new = r.sample(new, 40_000)
+    for n in new:
+        take(os.path.join(cdir, n), "fuzzed:corpus", "fuzz-corpus")
+    info["corpus_entries_rejudged"] = len(inputs) - info["artifacts_rejudged"]
+    shutil.rmtree(root, ignore_errors=True)
+    return inputs, info
+
+
 def c13(tier):
     from . import mutate_xml, gen_invalid
     v = Verdict("C13", tier, "exploration")
@@ -760,6 +844,11 @@ def c13(tier):
             start = r.choice(sorted(files))      # start from a sibling instead
             ops.append("start-from-sibling")
         add("mutated:" + label, files, start, ops)
+    fuzz_info = {"status": "not-run", "reason": "thorough tier only"}
+    if tier == "thorough" or os.environ.get("VERIF_FUZZ_SECONDS"):
+        fz_inputs, fuzz_info = _fuzz_stream(corpus, int(os.environ.get("VERIF_FUZZ_SECONDS", "900")))
+        for label, files, start, ops in fz_inputs:
+            add(label, files, start, ops)
     results = common.run_jobs(zdrive, jobs, nworkers=16, wall_timeout=600)
     outcomes = {}
     past_parse = 0
@@ -778,6 +867,8 @@ def c13(tier):
         if "died" in res:
             kind = common.classify_death(res)
             via = m["label"].split(":", 1)[1] if m["label"].startswith("grammar:") else "mutation"
+            if m["label"].startswith("fuzzed:"):
+                via = "coverage-guided-fuzzing"
             v.violation(f"C13|{kind}|via={via if via != 'mutation' else 'mutation:' + opclass}",
                         {"input": m["label"], "ops": m["ops"], "stderr": res.get("stderr", "")[-300:], "start": m["start"]}, replay_files)
             outcomes[kind] = outcomes.get(kind, 0) + 1
@@ -810,10 +901,12 @@ def c13(tier):
                 "occurrence garbage, tag renames, splices from other schemas; 1-3 stacked) of every repository schema/WSDL, of "
                 "synthetic WSDLs, applied to the start file or a sibling; 8% text-level damage; stream 2: the enumerated grammar of "
                 "invalid documents in vf/gen_invalid.py (missing attribute at every site, recursion through ref/base/type, forward-"
-                "reference fan-out, colliding namespaces, deep nesting, WSDL wiring errors, API misuse). Each input runs "
+                "reference fan-out, colliding namespaces, deep nesting, WSDL wiring errors, API misuse); stream 3 (thorough): inputs that a "
+                "coverage-guided fuzzer (cargo fuzz, tools/fuzz) kept or saved as artifacts, re-judged here. Each input runs "
                 "read_xml+write_xml in a zdrive child under catch_unwind, RLIMIT_CPU (10 s + 1 s/50 kB) and an 8 MiB stack. "
                 "Non-trivial = got past XML parsing; distinct = distinct (stream, mutation-operator class, outcome class) triples",
-        "grammar_cases": n_grammar, "mutated_inputs": len(jobs) - n_grammar, "past_xml_parsing": past_parse,
+        "grammar_cases": n_grammar, "mutated_inputs": sum(1 for m in meta if m["label"].startswith("mutated:")),
+        "coverage_guided_stream": fuzz_info, "past_xml_parsing": past_parse,
         "outcomes": outcomes, "inconclusive_cases": inconclusive, "samples": samples,
     }
     if inconclusive > len(jobs) * 0.1:
